@@ -270,8 +270,8 @@ Qed.
 
 (* ---------- examples ---------- *)
 Lemma supply_order_example :
-  let by_position := [mkComp 41 1 0 10; mkComp 1 0 1 20; mkComp 1 0 2 30; mkComp 28 0 3 40; mkComp 11 0 4 50] in
-  let by_profile := [mkComp 1 0 1 20; mkComp 1 0 2 30; mkComp 11 0 4 50; mkComp 28 0 3 40; mkComp 41 1 0 10] in
+  let by_position := [mkComp 41 [Hit 1 []] 0 10; mkComp 1 [] 1 20; mkComp 1 [] 2 30; mkComp 28 [] 3 40; mkComp 11 [] 4 50] in
+  let by_profile := [mkComp 1 [] 1 20; mkComp 1 [] 2 30; mkComp 11 [] 4 50; mkComp 28 [] 3 40; mkComp 41 [Hit 1 []] 0 10] in
   Permutation by_position by_profile /\ NoDup (map qstart by_position) /\
   exists m, build_modules_for_cds by_profile = Ok [m] /\ build_modules_for_cds by_position = Ok [m] /\
             map cid (m_comps m) = [0; 1; 2; 3; 4] /\ cnt c_cp (m_comps m) = 2%nat.
@@ -286,6 +286,6 @@ Qed.
 Lemma reversed_pair_refused :
   exists m1 m2 m3,
     build_modules_for_cds
-      [mkComp 41 1 0 10; mkComp 1 0 1 20; mkComp 1 0 2 30; mkComp 11 0 3 40; mkComp 28 0 4 50] = Ok [m1; m2; m3] /\
+      [mkComp 41 [Hit 1 []] 0 10; mkComp 1 [] 1 20; mkComp 1 [] 2 30; mkComp 11 [] 3 40; mkComp 28 [] 4 50] = Ok [m1; m2; m3] /\
     map cid (m_comps m1) = [0; 1] /\ map cid (m_comps m2) = [2] /\ map cid (m_comps m3) = [3; 4].
 Proof. do 3 eexists. split; [vm_compute; reflexivity|]. repeat split. Qed.
